@@ -15,19 +15,22 @@
    when Full = FALSE): blob compression raw / zlib (stored, default, best) / lz4 (literals only, with
    matches), raw_size before or after the data, index data and BlobHeader size (127 .. 65535 bytes),
    unknown fields at every message level, field order, packed / unpacked / split repeated scalars,
+   lengths written as 5 byte varints (producers that reserve the length and patch it later),
    Blob size (16 MiB, 32 MiB - 1), blobs of an unknown type, an empty group, header block contents.
 
-   Actions: Header, BlkOpen, GrpOpen, AddObj, GrpClose, BlkClose (= one PBFDataBlobDecoder call), Finish.
+   Actions: Header/Header2 (labels), BlkOpen (parameters), BlkExtent (string table layout, extent), GrpOpen, AddObj,
+   GrpClose (= the group is decoded), BlkClose/BlkClose2 (framing labels), Finish.
    Invariant DecodedOK: decoded is a prefix of Data(ds), equal at the end.  *)
 EXTENDS Encodings
-CONSTANTS DSNames, Grans, Offs, DGrans, Sizes, Full, ExportHist
+CONSTANTS DSNames, Grans, Offs, DGrans, Sizes, Comps, Packs, XBlobs, Full, ExportHist
 VARIABLES ds, pc, i, blk, grp, decoded, hist
 vars == <<ds, pc, i, blk, grp, decoded, hist>>
 
 D == Data(ds)
+OffsX == Offs \cup (IF Full THEN {-700} ELSE {})        \* (a cfg file cannot state a negative number)
 LabS(S, d) == IF Full THEN S ELSE {d}                   \* label-only dimension: a singleton in the design check
 NoGrp == [kind |-> "-", info |-> "-", objs |-> <<>>]
-NoBlk == [gran |-> 100, lato |-> 0, lono |-> 0, dgran |-> 1000, groups |-> <<>>]
+NoBlk == [gran |-> 100, lato |-> 0, lono |-> 0, dgran |-> 1000, st |-> "canon", first |-> 1, last |-> 0]
 
 \* ------------------------------------------------------------------ helpers
 RECURSIVE Deltas(_, _, _)
@@ -42,10 +45,9 @@ Dedup(s, seen) == IF s = <<>> THEN <<>>
 Rev(s) == [j \in 1..Len(s) |-> s[Len(s) + 1 - j]]
 
 StringsOf(o) == <<o.user>> \o Flat([j \in 1..Len(o.tags) |-> <<o.tags[j][1], o.tags[j][2]>>]) \o [j \in 1..Len(o.mems) |-> o.mems[j].role]
-BlockObjs(groups) == Flat([g \in 1..Len(groups) |-> groups[g].objs])
-\* StringTable.s: entry 0 is the empty string (delimiter of dense nodes)
-Table(style, groups) ==
-    LET used == Dedup(Flat([k \in 1..Len(BlockObjs(groups)) |-> StringsOf(D[BlockObjs(groups)[k]])]), {""})
+\* StringTable.s of the block that carries objects first..last: entry 0 is the empty string (delimiter of dense nodes)
+Table(style, first, last) ==
+    LET used == Dedup(Flat([k \in 1..(last - first + 1) |-> StringsOf(D[first + k - 1])]), {""})
     IN <<"">> \o (CASE style = "rev" -> Rev(used)
                     [] style = "dup" -> Flat([k \in 1..Len(used) |-> <<used[k], used[k]>>]) \o <<"never referenced">>
                     [] OTHER -> used)
@@ -89,13 +91,13 @@ DenseW(b, tab, mode, os) ==
      kv |-> IF SomeObj(os, LAMBDA o : o.tags # <<>>)
               THEN Flat([k \in 1..n |-> Flat([j \in 1..Len(os[k].tags) |-> <<Idx(tab, os[k].tags[j][1]), Idx(tab, os[k].tags[j][2])>>]) \o <<0>>])
               ELSE <<>>,
-     has |-> (IF mode = "all" \/ SomeObj(os, LAMBDA o : o.v # 0) THEN {"v"} ELSE {}) \cup
+     has |-> (IF mode \in {"all", "neg"} \/ SomeObj(os, LAMBDA o : o.v # 0) THEN {"v"} ELSE {}) \cup
              (IF mode = "all" \/ SomeObj(os, LAMBDA o : o.ts # 0) THEN {"t"} ELSE {}) \cup
              (IF mode = "all" \/ SomeObj(os, LAMBDA o : o.cs # 0) THEN {"c"} ELSE {}) \cup
              (IF mode = "all" \/ SomeObj(os, LAMBDA o : o.uid # 0) THEN {"i"} ELSE {}) \cup
              (IF mode = "all" \/ SomeObj(os, LAMBDA o : o.user # "") THEN {"u"} ELSE {}) \cup
              (IF mode = "all" \/ SomeObj(os, LAMBDA o : ~o.vis) THEN {"d"} ELSE {}),
-     vers |-> [k \in 1..n |-> os[k].v],
+     vers |-> [k \in 1..n |-> IF os[k].v = 0 /\ mode = "neg" THEN -1 ELSE os[k].v],
      tss |-> Deltas([k \in 1..n |-> RawTs(b, os[k])], 1, 0), css |-> Deltas([k \in 1..n |-> os[k].cs], 1, 0),
      uids |-> Deltas([k \in 1..n |-> os[k].uid], 1, 0), sids |-> Deltas([k \in 1..n |-> Idx(tab, os[k].user)], 1, 0),
      viss |-> [k \in 1..n |-> os[k].vis]]
@@ -146,68 +148,76 @@ DecodeGroup(b, tab, g) ==
     LET os == [k \in 1..Len(g.objs) |-> D[g.objs[k]]] IN
     IF g.kind = "dense" THEN DecDense(b, tab, DenseW(b, tab, g.info, os), 1, ZeroAcc, 1)
     ELSE [k \in 1..Len(os) |-> DecPlain(b, tab, KindT(g.kind), PlainW(b, tab, g.info, os[k]))]
-DecodeBlock(b, style) == LET tab == Table(style, b.groups) IN Flat([g \in 1..Len(b.groups) |-> DecodeGroup(b, tab, b.groups[g])])
 
 \* ------------------------------------------------------------------ actions
-Comps == {"raw", "zlib", "zlib0", "zlib9", "lz4", "lz4m"}
 Idxs == {"none", "small", "h127", "h128", "h255", "h256", "h32k", "hmax"}
 Orders == {"canon", "rev", "rot"}
-Packs == {"packed", "unpacked", "split"}
 
 Init == /\ ds \in DSNames /\ \A k \in 1..Len(Data(ds)) : PbfCarries(Data(ds)[k])
         /\ pc = "hdr" /\ i = 1 /\ blk = NoBlk /\ grp = NoGrp /\ decoded = <<>> /\ hist = <<>>
 Rec(step) == hist' = IF ExportHist THEN Append(hist, step) ELSE hist
 
+\* (label dimensions are drawn in two actions each so that no state has thousands of successors)
 Header == /\ pc = "hdr"
-          /\ \E comp \in LabS(Comps, "raw"), idx \in LabS(Idxs, "none"), order \in LabS(Orders, "canon"),
-                unk \in LabS(BOOLEAN, FALSE), bbox \in LabS(BOOLEAN, FALSE), prog \in LabS(BOOLEAN, FALSE),
-                rsfirst \in LabS(BOOLEAN, TRUE), xblobs \in LabS({"none", "first", "mid", "end"}, "none") :
-                Rec([a |-> "hdr", comp |-> comp, idx |-> idx, order |-> order, unk |-> unk, bbox |-> bbox, prog |-> prog,
-                     rsfirst |-> rsfirst, xblobs |-> xblobs])
-          /\ pc' = "file" /\ UNCHANGED <<ds, i, blk, grp, decoded>>
+          /\ \E comp \in LabS(Comps, "raw"), idx \in LabS(Idxs, "none"), order \in LabS(Orders, "canon") :
+                Rec([a |-> "hdr", comp |-> comp, idx |-> idx, order |-> order])
+          /\ pc' = "hdr2" /\ UNCHANGED <<ds, i, blk, grp, decoded>>
+Header2 == /\ pc = "hdr2"
+           /\ \E unk \in LabS(BOOLEAN, FALSE), bbox \in LabS(BOOLEAN, FALSE), prog \in LabS(BOOLEAN, FALSE),
+                 rsfirst \in LabS(BOOLEAN, TRUE), xblobs \in XBlobs :
+                 Rec([a |-> "hdr2", unk |-> unk, bbox |-> bbox, prog |-> prog, rsfirst |-> rsfirst, xblobs |-> xblobs])
+           /\ pc' = "file" /\ UNCHANGED <<ds, i, blk, grp, decoded>>
 
+\* block parameters; at least the next object must be representable with them
 BlkOpen == /\ pc = "file" /\ i <= Len(D)
-           /\ \E gran \in Grans, lato \in Offs, lono \in Offs, dgran \in DGrans :
-                /\ Fits([gran |-> gran, lato |-> lato, lono |-> lono, dgran |-> dgran], D[i])      \* at least the next object
-                /\ blk' = [gran |-> gran, lato |-> lato, lono |-> lono, dgran |-> dgran, groups |-> <<>>]
+           /\ \E gran \in Grans, lato \in OffsX, lono \in OffsX, dgran \in DGrans :
+                /\ Fits([gran |-> gran, lato |-> lato, lono |-> lono, dgran |-> dgran], D[i])
+                /\ blk' = [NoBlk EXCEPT !.gran = gran, !.lato = lato, !.lono = lono, !.dgran = dgran]
                 /\ Rec([a |-> "blk", gran |-> gran, lato |-> lato, lono |-> lono, dgran |-> dgran])
-           /\ pc' = "blk" /\ UNCHANGED <<ds, i, grp, decoded>>
+           /\ pc' = "blk0" /\ UNCHANGED <<ds, i, grp, decoded>>
+\* the block takes the next n objects (all representable) and fixes the layout of its string table
+BlkExtent == /\ pc = "blk0"
+             /\ \E st \in {"canon", "rev", "dup"}, n \in 1..(Len(D) - i + 1) :
+                  /\ \A k \in i..(i + n - 1) : Fits(blk, D[k])
+                  /\ blk' = [blk EXCEPT !.st = st, !.first = i, !.last = i + n - 1]
+                  /\ Rec([a |-> "blkx", st |-> st, n |-> n])
+             /\ pc' = "blk" /\ UNCHANGED <<ds, i, grp, decoded>>
 
-GrpOpen == /\ pc = "blk" /\ i <= Len(D) /\ Fits(blk, D[i])
+GrpOpen == /\ pc = "blk" /\ i <= blk.last
            /\ \E kind \in (CASE D[i].t = "n" -> {"dense", "nodes"} [] D[i].t = "w" -> {"ways"} [] OTHER -> {"rels"}),
                 info \in {"min", "all", "neg"},
-                pack \in LabS(Packs, "packed"), order \in LabS(Orders, "canon"), unk \in LabS(BOOLEAN, FALSE) :
+                pack \in Packs, order \in LabS(Orders, "canon"), unk \in LabS(BOOLEAN, FALSE), lenpad \in LabS(BOOLEAN, FALSE) :
                 /\ grp' = [kind |-> kind, info |-> info, objs |-> <<>>]
-                /\ Rec([a |-> "grp", kind |-> kind, info |-> info, pack |-> pack, order |-> order, unk |-> unk])
+                /\ Rec([a |-> "grp", kind |-> kind, info |-> info, pack |-> pack, order |-> order, unk |-> unk, lenpad |-> lenpad])
            /\ pc' = "grp" /\ UNCHANGED <<ds, i, blk, decoded>>
 
-AddObj == /\ pc = "grp" /\ i <= Len(D) /\ D[i].t = KindT(grp.kind) /\ Fits(blk, D[i])
+AddObj == /\ pc = "grp" /\ i <= blk.last /\ D[i].t = KindT(grp.kind)
           /\ grp' = [grp EXCEPT !.objs = Append(@, i)]
           /\ i' = i + 1
           /\ Rec([a |-> "obj", i |-> i - 1])
           /\ UNCHANGED <<ds, pc, blk, decoded>>
 
+\* one PrimitiveGroup decoded (decode_primitive_block_data); dense delta registers start at zero in every group
 GrpClose == /\ pc = "grp" /\ grp.objs # <<>>
-            /\ blk' = [blk EXCEPT !.groups = Append(@, grp)]
+            /\ decoded' = decoded \o DecodeGroup(blk, Table(blk.st, blk.first, blk.last), grp)
             /\ grp' = NoGrp /\ pc' = "blk"
             /\ Rec([a |-> "endgrp"])
-            /\ UNCHANGED <<ds, i, decoded>>
+            /\ UNCHANGED <<ds, i, blk>>
 
-BlkClose == /\ pc = "blk" /\ blk.groups # <<>>
-            /\ \E st \in {"canon", "rev", "dup"},
-                  comp \in LabS(Comps, "raw"), idx \in LabS(Idxs, "none"), order \in LabS(Orders, "canon"),
-                  unk \in LabS(BOOLEAN, FALSE), rsfirst \in LabS(BOOLEAN, TRUE), emptygroup \in LabS(BOOLEAN, FALSE),
-                  size \in Sizes :
-                  /\ decoded' = decoded \o DecodeBlock(blk, st)                          \* PBFDataBlobDecoder::operator()
-                  /\ Rec([a |-> "endblk", st |-> st, comp |-> comp, idx |-> idx, order |-> order, unk |-> unk,
-                          rsfirst |-> rsfirst, emptygroup |-> emptygroup, size |-> size])
-            /\ blk' = NoBlk /\ pc' = "file"
-            /\ UNCHANGED <<ds, i, grp>>
+BlkClose == /\ pc = "blk" /\ i = blk.last + 1
+            /\ \E comp \in LabS(Comps, "raw"), idx \in LabS(Idxs, "none"), order \in LabS(Orders, "canon") :
+                  Rec([a |-> "endblk", comp |-> comp, idx |-> idx, order |-> order])
+            /\ pc' = "blkc" /\ UNCHANGED <<ds, i, blk, grp, decoded>>
+BlkClose2 == /\ pc = "blkc"
+             /\ \E unk \in LabS(BOOLEAN, FALSE), rsfirst \in LabS(BOOLEAN, TRUE), emptygroup \in LabS(BOOLEAN, FALSE), size \in Sizes :
+                   Rec([a |-> "endblk2", unk |-> unk, rsfirst |-> rsfirst, emptygroup |-> emptygroup, size |-> size])
+             /\ blk' = NoBlk /\ pc' = "file"
+             /\ UNCHANGED <<ds, i, grp, decoded>>
 
 Finish == /\ pc = "file" /\ i > Len(D)
           /\ pc' = "done" /\ UNCHANGED <<ds, i, blk, grp, decoded, hist>>
 
-Next == Header \/ BlkOpen \/ GrpOpen \/ AddObj \/ GrpClose \/ BlkClose \/ Finish
+Next == Header \/ Header2 \/ BlkOpen \/ BlkExtent \/ GrpOpen \/ AddObj \/ GrpClose \/ BlkClose \/ BlkClose2 \/ Finish
 Spec == Init /\ [][Next]_vars
 
 DecodedOK == /\ IsPrefix(decoded, D)
